@@ -189,7 +189,19 @@ def single_assignments(fn: FuncInfo) -> dict[str, ast.AST]:
         return cache
     counts: dict[str, int] = {}
     vals: dict[str, ast.AST] = {}
+    folded: set[int] = set()
     for n in walk_local(fn.node):
+        # `if c: x = A else: x = B` is the statement form of `x = A if c else B`
+        if isinstance(n, ast.If) and len(n.body) == 1 and len(n.orelse) == 1 and all(
+                isinstance(b_, ast.Assign) and len(b_.targets) == 1 and isinstance(b_.targets[0], ast.Name) for b_ in (n.body[0], n.orelse[0])) and \
+                n.body[0].targets[0].id == n.orelse[0].targets[0].id:
+            nm_ = n.body[0].targets[0].id
+            counts[nm_] = counts.get(nm_, 0) + 1
+            vals[nm_] = ast.copy_location(ast.IfExp(n.test, n.body[0].value, n.orelse[0].value), n)
+            folded |= {id(n.body[0]), id(n.orelse[0])}
+    for n in walk_local(fn.node):
+        if id(n) in folded:
+            continue
         if isinstance(n, ast.Assign):
             for t in n.targets:
                 for nm in ([t] if isinstance(t, ast.Name) else [x for x in ast.walk(t) if isinstance(x, ast.Name)
@@ -248,6 +260,9 @@ def expand_aliases(fn: FuncInfo, e: ast.AST, depth: int = 3) -> ast.AST:
             if isinstance(n.ctx, ast.Load) and n.id in sa:
                 return ast.parse(unparse(sa[n.id]), mode='eval').body
             return n
+
+        def visit_NamedExpr(self, n: ast.NamedExpr):
+            return self.visit(n.value)          # `(x := v)` evaluates to v
     cur = ast.parse(unparse(e), mode='eval').body
     for _ in range(depth):
         before = unparse(cur)
@@ -265,6 +280,100 @@ def expanded_guards(eng: Engine, fn: FuncInfo, node: ast.AST) -> list[tuple[ast.
         for e2, p2 in split_conj(ex, pol):
             out.append((e2, p2, a))
     return out
+
+
+def prefix_test(e: ast.AST) -> Optional[tuple[str, str]]:
+    """(subject source, prefix) when `e` tests that a string starts with a one-character literal: `S.startswith('c')`, `S[:1] == 'c'`"""
+    if isinstance(e, ast.Call) and call_name(e) == 'startswith' and isinstance(e.func, ast.Attribute) and len(e.args) == 1 and isinstance(const(e.args[0]), str):
+        return unparse(e.func.value), const(e.args[0])
+    a = cmp_atom(e)
+    if a and a[0] == 'eq':
+        for x, y in ((a[1], a[2]), (a[2], a[1])):
+            if isinstance(const(y), str) and len(const(y)) == 1 and isinstance(x, ast.Subscript) and isinstance(x.slice, ast.Slice) and \
+                    (x.slice.lower is None or const(x.slice.lower) == 0) and const(x.slice.upper) == 1 and x.slice.step is None:
+                return unparse(x.value), const(y)
+    return None
+
+
+def elements_nonempty(eng: Engine, fn: FuncInfo, node: ast.AST) -> bool:
+    """`node` sits in a loop / comprehension over elements and only runs for non-empty (truthy) elements: a dominating `if not v: continue`
+    / `if v:`, an iterable `filter(None, ..)`, or a comprehension condition `if v`."""
+    for a in ancestors(node):
+        if isinstance(a, (ast.For, ast.AsyncFor)) and isinstance(a.target, ast.Name):
+            v = a.target.id
+            it = expand_aliases(fn, a.iter)
+            if isinstance(it, ast.Call) and call_name(it) == 'filter' and len(it.args) == 2 and (is_none_const(it.args[0]) or unparse(it.args[0]) in ('bool', 'len')):
+                return True
+            if isinstance(it, (ast.ListComp, ast.GeneratorExp, ast.SetComp)) and len(it.generators) == 1 and isinstance(it.generators[0].target, ast.Name) and \
+                    unparse(it.elt) == it.generators[0].target.id and any(unparse(i_) == it.generators[0].target.id for i_ in it.generators[0].ifs):
+                return True
+            if any(pol and isinstance(e, ast.Name) and e.id == v for e, pol, _ in eng.guards_at(fn, node)):
+                return True
+        if isinstance(a, (ast.ListComp, ast.GeneratorExp, ast.SetComp, ast.DictComp)):
+            for g in a.generators:
+                if isinstance(g.target, ast.Name) and any(unparse(i_) == g.target.id for i_ in g.ifs):
+                    return True
+    return False
+
+
+def ifexp_cases(v: ast.AST, conds: tuple = ()):
+    """(conditions, leaf) for every arm of a (nested) conditional expression: `A if c else B` -> ([c true], A), ([c false], B)"""
+    if isinstance(v, ast.IfExp):
+        yield from ifexp_cases(v.body, conds + tuple(split_conj(v.test, True)))
+        yield from ifexp_cases(v.orelse, conds + tuple(split_conj(v.test, False)))
+    else:
+        yield list(conds), v
+
+
+def cond_values(eng: Engine, fn: FuncInfo, st: ast.stmt) -> list[tuple[list[tuple[ast.AST, bool]], ast.AST]]:
+    """The values a statement `x = v` / `return v` can produce with the conditions under which each is chosen: the guards that dominate
+    the statement plus the tests of a conditional expression on its right-hand side (the two spellings of the same choice)."""
+    base = [(e, pol) for e, pol, _ in eng.guards_at(fn, st)]
+    v = getattr(st, 'value', None)
+    if v is None:
+        return []
+    return [(base + conds, leaf) for conds, leaf in ifexp_cases(v)]
+
+
+def collected(eng: Engine, fn: FuncInfo, name: str) -> list[dict]:
+    """How the local list/set `name` is filled: one entry per `name.append(E)` / `name.add(E)` inside a loop and per
+    `name = [E for T in ITER if C]`:  {'elt', 'iter', 'target', 'conds': [(expr, polarity)], 'node'}.  The two spellings of
+    "collect E for every T in ITER that satisfies C" give the same entry."""
+    out = []
+    for n in walk_local(fn.node):
+        if isinstance(n, ast.Call) and call_name(n) in ('append', 'add') and isinstance(n.func, ast.Attribute) and unparse(n.func.value) == name and len(n.args) == 1:
+            lp = next((a for a in ancestors(n) if isinstance(a, (ast.For, ast.AsyncFor))), None)
+            out.append({'elt': n.args[0], 'iter': lp.iter if lp is not None else None, 'target': lp.target if lp is not None else None,
+                        'conds': [(e, pol) for e, pol, _ in eng.guards_at(fn, n)], 'node': n})
+        if isinstance(n, (ast.Assign, ast.AnnAssign)) and n.value is not None and isinstance(n.value, (ast.ListComp, ast.SetComp)) and \
+                unparse(n.targets[0] if isinstance(n, ast.Assign) else n.target) == name and len(n.value.generators) == 1:
+            g = n.value.generators[0]
+            out.append({'elt': n.value.elt, 'iter': g.iter, 'target': g.target,
+                        'conds': [(e, pol) for e, pol, _ in eng.guards_at(fn, n)] + [a for i_ in g.ifs for a in split_conj(i_, True)], 'node': n})
+    return out
+
+
+def key_removals(root: ast.AST, dict_src: str) -> list[tuple[ast.AST, ast.AST]]:
+    """(node, key expression) for every removal of one key from the mapping written `dict_src`: `del D[k]`, `D.pop(k)`, `D.pop(k, default)`"""
+    out = []
+    for n in ast.walk(root):
+        if isinstance(n, ast.Delete):
+            for t in n.targets:
+                if isinstance(t, ast.Subscript) and unparse(t.value) == dict_src:
+                    out.append((n, t.slice))
+        if isinstance(n, ast.Call) and call_name(n) == 'pop' and isinstance(n.func, ast.Attribute) and unparse(n.func.value) == dict_src and 1 <= len(n.args) <= 2:
+            out.append((n, n.args[0]))
+    return out
+
+
+def lookup_in(e: ast.AST) -> Optional[tuple[ast.AST, ast.AST]]:
+    """(mapping, key) when `e` reads one entry of a mapping: `M[k]`, `M.get(k)`, `M.get(k, None)`"""
+    if isinstance(e, ast.Subscript) and not isinstance(e.slice, ast.Slice):
+        return e.value, e.slice
+    if isinstance(e, ast.Call) and call_name(e) == 'get' and isinstance(e.func, ast.Attribute) and 1 <= len(e.args) <= 2 and not e.keywords and \
+            (len(e.args) == 1 or is_none_const(e.args[1])):
+        return e.func.value, e.args[0]
+    return None
 
 
 MUTATORS = {'append', 'extend', 'add', 'update', 'insert', 'remove', 'pop', 'clear', 'discard', 'setdefault', 'popitem', 'appendleft'}
